@@ -467,7 +467,12 @@ impl Interp {
                     ok: !fails,
                 });
                 if fails {
-                    self.report(loc, PKind::Foreign(ProbeData::Failed { id, role: "validate" }), false);
+                    if crate::probe::is_own_error_validate(id) {
+                        // the function's error type is the recording error type itself: it makes the report
+                        self.report(loc, PKind::Unexpected { must_contain: vec![format!("validate#{id} ")], any_of: vec![], any_of2: vec![], why: "validate with the container's own error type" }, false);
+                    } else {
+                        self.report(loc, PKind::Foreign(ProbeData::Failed { id, role: "validate" }), false);
+                    }
                     None
                 } else {
                     Some(m)
